@@ -68,7 +68,7 @@ func installAxioms(e *rangeEngine) {
 	e.retOverride["LunarUtil.GetJiaZiIndex"] = rangeVal(0, 59).withAx(axBit("AX-PARITY"))
 	dd := axBit("AX-DATEDIFF")
 	e.siteOverride["calendar.(*Lunar).GetShuJiu|calendar.(*Solar).Subtract"] = rangeVal(0, 80).withAx(dd)
-	for _, f := range []string{"GetHou", "GetWuHou", "GetDayNineStar"} {
+	for _, f := range []string{"GetHou", "GetWuHou"} {
 		e.siteOverride["calendar.(*Lunar)."+f+"|calendar.(*Solar).Subtract"] = rangeVal(0, pinf).withAx(dd)
 	}
 	e.siteOverride["calendar.(*Yun).computeStart|calendar.(*Solar).SubtractMinute"] = rangeVal(0, pinf).withAx(dd)
